@@ -181,6 +181,17 @@ fn gen_pdu(r: &mut Rng, v: u32) -> CanonicalJsonObject {
     if r.chance(1, 4) {
         ev.insert(gen_str(r), gen_json(r, 1));
     }
+    // an event that already carries hashes (re-signing after an edit, or built from a template)
+    if r.chance(1, 5) {
+        let mut h = CanonicalJsonObject::new();
+        if r.chance(2, 3) {
+            h.insert("sha256".into(), s("c3RhbGU"));
+        }
+        if r.chance(1, 2) {
+            h.insert("md5".into(), s("x"));
+        }
+        ev.insert("hashes".into(), CanonicalJsonValue::Object(h));
+    }
     ev
 }
 
